@@ -59,6 +59,7 @@ UNIVERSES = {
     "tiny": dict(nodes=["n1", "n2"], links=["l1", "l2"], origs=["o1", "r1"], ramps=["r1"], dests=["d1"]),
     "near4": dict(nodes=["n1", "n2", "n3", "n4"], links=["l1", "l2", "l3", "l4", "l5", "l6"], origs=["o1", "o2", "o3", "o4", "r1", "r2", "r3", "r4"],
                   ramps=["r1", "r2", "r3", "r4"], dests=["d1", "d2", "d3", "d4"]),
+    "dense": dict(nodes=["n1", "n2"], links=["l1", "l2", "l3"], origs=["o1", "r1"], ramps=["r1"], dests=["d1"]),
     "valid4": dict(nodes=["n1", "n2", "n3", "n4"], links=["l1", "l2", "l3"], origs=["o1", "r1"], ramps=["r1"], dests=["d1", "d2"]),
 }
 
@@ -75,9 +76,12 @@ def transitions(profile: str, universe: str, depth: int, maxpath: int = 3, model
     d = WORK / "cfg"
     d.mkdir(parents=True, exist_ok=True)
     cfg = d / f"MC_Build-{key}.cfg"
-    cfg.write_text(CFG.format(nodes=tla_set(u["nodes"]), links=tla_set(u["links"]), origs=tla_set(u["origs"]),
-                              ramps=tla_set(u["ramps"]), dests=tla_set(u["dests"]), depth=depth, profile=profile,
-                              maxpath=maxpath, **model, **NO_IMPL_TABLE))
+    text = CFG.format(nodes=tla_set(u["nodes"]), links=tla_set(u["links"]), origs=tla_set(u["origs"]),
+                      ramps=tla_set(u["ramps"]), dests=tla_set(u["dests"]), depth=depth, profile=profile,
+                      maxpath=maxpath, **model, **NO_IMPL_TABLE)
+    if profile == "dense":   # every history is its own state: hidden implementation state may depend on the whole history
+        text = text.replace("VIEW View\n", "VIEW ViewH\n")
+    cfg.write_text(text)
     env = {"SHAPES_FILE": ""}
     if profile == "near":
         import dyncases
@@ -98,7 +102,7 @@ def transitions(profile: str, universe: str, depth: int, maxpath: int = 3, model
 
 def _replay_chunk(chunk):
     import buildrun
-    return [buildrun.replay_transition(t) for t in chunk]
+    return [buildrun.replay_transition(t, read_each=t.get("read_each", False)) for t in chunk]
 
 
 def replay_all(trans):
@@ -117,7 +121,9 @@ def replay_all(trans):
 
 KEY = {"C06": "c06", "C08": "c08", "C09": "c09"}
 PLANS = {
-    "C08": dict(quick=[("cache", "small", 3, 3)], thorough=[("cache", "small", 3, 3), ("cache", "tiny", 4, 3), ("path", "tiny", 2, 4)]),
+    # ("dense", ...): EVERY history of add_link calls (none merged) over 2 nodes / 3 links, all lookups read after every call
+    "C08": dict(quick=[("cache", "small", 3, 3), ("dense", "dense", 5, 3)],
+                thorough=[("cache", "small", 3, 3), ("cache", "tiny", 4, 3), ("path", "tiny", 2, 4), ("dense", "dense", 5, 3)]),
     "C09": dict(quick=[("path", "small", 1, 4), ("cache", "small", 2, 3), ("path", "tiny", 2, 2)],
                 thorough=[("path", "small", 1, 6), ("path", "small", 2, 3), ("cache", "tiny", 4, 3)]),
     # ("near", universe, extra calls, shape bound): every valid shape <= (3,3)/(4,4)/(4,5) + every single further call
@@ -131,6 +137,9 @@ def run(pid: str, tier: str) -> dict:
     graphs = set()
     for profile, universe, depth, maxpath in PLANS[pid][tier]:
         trans, info = transitions(profile, universe, depth, maxpath)
+        if profile == "dense":
+            for t in trans:
+                t["read_each"] = True
         states += info["states"]
         ntrans += info["transitions"]
         findings = replay_all(trans)
